@@ -60,8 +60,8 @@ def run(ctx):
         if cd:
             ctx.touch(cd)
             A, B = P.field('0', P.param()), P.field('1', P.param())
-            A = P.either(P.named('a'), A)
-            B = P.either(P.named('b'), B)
+            A = P.either(P.param(), A)
+            B = P.either(P.param(), B)
             r = ex(prog, cd).local(0)
             extra = [x for l in range(len(cd.locals)) for x in table(prog, cd, l)]
             one = any(const_val(x[1]) == 1 and any(P.binop('Ne', P.binop('Rem', A, B), P.const(0))(c) for c in x[2]) for x in extra)
@@ -74,8 +74,8 @@ def run(ctx):
             r = ex(prog, ix).local(0)
             rank = P.cast(P.callv_or_call(P.anything, P.binop('Mul', P.param('p'), P.cast(P.length(P.upvar('values')))), P.item('MAX_PERCENTILE', 100)), 'i32') if hasattr(P, 'callv_or_call') else None
             s = show(r)
-            okix = (P.index(P.upvar('values'), P.cast(P.call('max', P.binop('Sub', P.cast(P.anything, 'i32'), P.const(1)), P.const(0)), 'usize'))(r)
-                    and any(P.binop('Mul', P.param('p'), P.cast(P.length(P.upvar('values')), 'u32'))(x) for x in walk(r))
+            okix = (P.index(P.upvar(), P.cast(P.call('max', P.binop('Sub', P.cast(P.anything, 'i32'), P.const(1)), P.const(0)), 'usize'))(r)
+                    and any(P.binop('Mul', P.param('p'), P.cast(P.length(P.upvar()), 'u32'))(x) for x in walk(r))
                     and any(x[0] == 'item' and x[1].endswith('MAX_PERCENTILE') for x in walk(r)))
         ctx.check(okix, 'R1', 'percentiles:index', ix or f, 'value = values[max(0, ceil_div(p * n, 100) as i32 - 1)]', 'index expression: %s' % (show(ex(prog, ix).local(0))[:240] if ix else None))
     # ---------------- R2 ------------------------------------------------------------------------
@@ -99,11 +99,15 @@ def run(ctx):
             d['skips-coinbase'] = any(P.not_(P.call('ic_btc_types::Transaction::is_coinbase', P.anything))(c) for c in conds)
             a0, a1 = e.operand(fc[0].args[0]), e.operand(fc[0].args[1])
             d['vsize'] = P.call('ic_btc_types::Transaction::vsize', P.anything)(a1)
-            cs_ = P.call('core::num::checked_sub', P.named('input_sum'), P.has(P.call('core::iter::traits::iterator::Iterator::sum')))
+            from sa.util import find_locals, is_var
+            l_in = find_locals(prog, f, lambda x, l: const_val(x) == 0, lambda x, l: x[0] == 'bin' and x[1] == 'Add' and (is_var(l)(x[2]) or is_var(l)(x[3])) and P.has(P.field('value'))(x))
+            INSUM = is_var(l_in[0]) if len(l_in) == 1 else (lambda x: False)
+            cs_ = P.call('core::num::checked_sub', INSUM, P.has(P.call('core::iter::traits::iterator::Iterator::sum')))
             d['fee=inputs-outputs(checked)'] = P.has(cs_)(a0) and (any(P.is_(P.has(cs_), 'Some')(c) or P.is_(P.has(cs_), 'Continue')(c) for c in conds))
         # input_sum accumulates txout values
-        acc = [x for l in local_by_name(f, 'input_sum') for x in e.def_exprs(l)]
-        d['sums-input-values'] = any(P.binop('Add', P.named('input_sum'), P.has(P.field('value')))(x) for x in acc) and any(const_val(x) == 0 for x in acc)
+        from sa.util import find_locals, is_var
+        l_in2 = find_locals(prog, f, lambda x, l: const_val(x) == 0, lambda x, l: x[0] == 'bin' and x[1] == 'Add' and (is_var(l)(x[2]) or is_var(l)(x[3])) and P.has(P.field('value'))(x))
+        d['sums-input-values'] = len(l_in2) == 1
         # output sum over o.value.to_sat()
         okout = False
         for k in prog.descendants(f):
@@ -132,11 +136,13 @@ def run(ctx):
         good = len(rev) == 1 and P.call('core::slice::iter', P.has(P.param('main_chain')))(e.operand(rev[0].args[0]))
         ctx.check(good, 'R3', 'tip-first', rev[0] if rev else f, 'blocks are visited tip first (main_chain.iter().rev())', 'block iteration is not main_chain.iter().rev()')
         push = [k for k in f.calls() if not k.cleanup and k.matches('alloc::vec::Vec::push')]
-        stop = P.binop('Lt', P.named('tx_count'), P.param('number_of_transactions'))
+        from sa.util import counter_local, is_var
+        l_tc = counter_local(prog, f, 0, 1)
+        TXC = is_var(l_tc[0]) if len(l_tc) == 1 else (lambda x: False)
+        stop = P.binop('Lt', TXC, P.param('number_of_transactions'))
         okp = len(push) == 1 and sum(1 for c in cond_exprs(prog, f, push[0].bb) if stop(c)) >= 2
         ctx.check(okp, 'R3', 'stops-at-count', push[0] if push else f, 'both loops stop once tx_count reaches the requested count', 'push is not guarded by tx_count < number_of_transactions in both loops')
-        inc = [x for l in local_by_name(f, 'tx_count') for x in e.def_exprs(l)]
-        ctx.check(any(P.binop('Add', P.named('tx_count'), P.const(1))(x) for x in inc) and any(const_val(x) == 0 for x in inc), 'R3', 'count-increment', f, 'tx_count starts at 0 and is incremented by 1 per fee', 'tx_count updates: %s' % [show(x) for x in inc])
+        ctx.check(len(l_tc) == 1, 'R3', 'count-increment', f, 'the transaction counter starts at 0 and is incremented by 1 per fee', 'no counter 0 / +1 found (candidates: %d)' % len(l_tc))
         # cached fees used when present, else recomputed from the block's transactions (filter_map over get_tx_fee_per_byte)
         fr_ = [k for k in f.calls_to('ic_btc_canister::blocktree::CachedBlock::fee_rates') if not k.cleanup]
         rc = [k for kk in [f] + prog.descendants(f) for k in kk.calls_to(FP + 'get_tx_fee_per_byte') if not k.cleanup]
@@ -151,7 +157,7 @@ def run(ctx):
         cached_v = P.field('fee_percentiles', P.has(P.downcast('Some', cache)))
         hit = [r for r in rows if cached_v(r[1]) and P.exactly(r[2], [P.is_(cache, 'Some'), P.binop('Eq', tip, P.field('tip_block_hash', P.has(P.downcast('Some', cache))))])]
         emp = [r for r in rows if cached_v(r[1]) and any(P.call('alloc::vec::Vec::is_empty', P.call(FP + 'get_fees_per_byte'))(c) for c in r[2]) and any(P.is_(cache, 'Some')(c) for c in r[2])]
-        comp = [r for r in rows if P.call(FP + 'percentiles', P.call(FP + 'get_fees_per_byte'))(r[1]) or P.named('fee_percentiles')(r[1])]
+        comp = [r for r in rows if P.call(FP + 'percentiles', P.call(FP + 'get_fees_per_byte'))(r[1]) or r[1][0] == 'var']
         ctx.check(len(hit) == 1 and len(emp) == 1 and len(comp) == 1 and len(rows) == 3, 'R4', 'table', f,
                   'hit (same tip) -> cached; no fees and a cache present -> cached; otherwise percentiles(fees)', 'cache table: %s' % describe_table(rows))
         fa = field_assignments(prog, f, 'ic_btc_canister::state::GenericState', 'fee_percentiles_cache')
